@@ -193,7 +193,13 @@ class Engine:
         from .spec import Instance
         for n_, h in enumerate(hints):
             if isinstance(h, Instance):
-                if any(z3.eq(h.forall, f) for f in st.pc):
+                def conjuncts(f):
+                    if z3.is_and(f):
+                        for c in f.children():
+                            yield from conjuncts(c)
+                    else:
+                        yield f
+                if any(z3.eq(h.forall, c) for f in st.pc if z3.is_expr(f) for c in conjuncts(f)):
                     extra.append(h.formula)      # instance of a hypothesis: sound without a proof of its own
                     continue
                 h = h.formula
